@@ -269,15 +269,44 @@ func c09(c *Ctx) {
 			}
 			tidVar, sidVar := objOf(info, tidSrc), objOf(info, sidSrc)
 			// the parent's trace id: psc.TraceID(), possibly held in a local with that single definition
+			isParentTIDCall := func(e ast.Expr) bool {
+				rc, ok := unparen(e).(*ast.CallExpr)
+				return ok && isCallTo(info, rc, "("+otelTrace+".SpanContext).TraceID")
+			}
 			isParentTID := func(e ast.Expr) bool {
 				e = unparen(e)
 				if id, ok := e.(*ast.Ident); ok {
 					if def := g.LocalDef(info.Uses[id]); def != nil {
 						e = unparen(def)
+					} else if o := info.Uses[id]; o != nil {
+						// a variable with several assignments: at this use the only assignment that reaches it is the parent's id
+						// (tid := psc.TraceID(); if tid.IsValid() { … } else { tid, sid = NewIDs() })
+						use := g.NodeOf(id)
+						var reaching []ast.Expr
+						for _, x := range g.Nodes {
+							as, isAs := x.N.(*ast.AssignStmt)
+							if !isAs || use == nil {
+								continue
+							}
+							for i, l := range as.Lhs {
+								if objOf(info, l) != o {
+									continue
+								}
+								if s, _ := g.Reach([]*GNode{x}, nil, nil); s[use] {
+									if len(as.Lhs) == len(as.Rhs) {
+										reaching = append(reaching, as.Rhs[i])
+									} else {
+										reaching = append(reaching, as.Rhs[0])
+									}
+								}
+							}
+						}
+						if len(reaching) == 1 {
+							e = unparen(reaching[0])
+						}
 					}
 				}
-				rc, ok := e.(*ast.CallExpr)
-				return ok && isCallTo(info, rc, "("+otelTrace+".SpanContext).TraceID")
+				return isParentTIDCall(e)
 			}
 			for _, valid := range []bool{true, false} {
 				env := func(e ast.Expr) (constant.Value, bool) {
@@ -313,6 +342,17 @@ func c09(c *Ctx) {
 									other = true
 								}
 							}
+						}
+					}
+				}
+				// judged on the value that reaches the new span context: resolve the TraceID source at its use under the row's facts
+				if tidSrc != nil {
+					if use := g.NodeOf(tidSrc); use != nil && seen[use] {
+						rv := unparen(g.ResolveUnder(env, seen, tidSrc, use))
+						if isParentTIDCall(rv) {
+							tidFromParent, other = true, false
+						} else if call, ok := rv.(*ast.CallExpr); ok && isNewIDs(call) {
+							tidFromParent = false
 						}
 					}
 				}
